@@ -610,6 +610,79 @@ def r2(ctx):
         ctx.decide(ok, "C09-R2", fn, rel, q, "coordinates enter products only as differences (%d reads, %d differences; result %s)" % (t.n_abs, t.n_diff, NAMES[t.ret] if t.ret is not None else "-"), "", why)
 
 
+def _closest_contact_lattice(ctx, cf):
+    """find_closest_contact by value numbering (sa/symval.py; loops over symbolic indices, floorf opaque): the vector whose squared length is compared
+    and stored differs from the plain difference of the two positions by an integer combination of the cell vectors - component k of the correction is
+    sum_m n_m * box[3m + k] with the same integer-valued n_m (rounding terms) for k = 0, 1, 2.  Moving an atom by a lattice vector then changes the n_m
+    and nothing else."""
+    from ..symval import SymExec, State, Vec, Unsupported
+    from ..poly import Poly, Rat
+    fname = "find_closest_contact"
+    fn = cf.function(GEO, fname)
+    what = "the compared vector = x1 - x2 + integer combination of the cell vectors (same integers for the three components)"
+    ex = SymExec(cf, GEO, symbolic_loops={"*"})
+    try:
+        outs = ex.run(C.kids(C.body_of(fn)), State())
+    except Unsupported as e:
+        ctx.undecided("C09-R3", C.line(fn), GEO, fname, what, "not evaluable: %s" % e)
+        return
+    ints = {sym for sym, (f_, a_) in ex.opaque.items() if f_ in ("floorf", "floor", "roundf", "round", "rintf", "rint", "nearbyintf", "lroundf", "lround")}
+    done = 0
+    for o in outs:
+        facts = [(c, p) for c, p in o.cvals]
+        if not any(p and "box_vectors_pointer" in c and "!=" in c.replace(" ", "") for c, p in facts) and not any((not p) and "box_vectors_pointer" in c and "==" in c for c, p in facts):
+            continue
+        # the vector compared: a lane vector whose squared length is the value stored as the running minimum
+        vecs = [(k_, v_) for k_, v_ in o.env.items() if isinstance(v_, Vec)]
+        r2s = [v_ for k_, v_ in o.env.items() if isinstance(v_, Rat) and v_.poly() is not None and v_.poly().degree() >= 2]
+        delta = next((v_ for k_, v_ in vecs if any(v_[0] * v_[0] + v_[1] * v_[1] + v_[2] * v_[2] == r_ for r_ in r2s) and any(x_ in ints for l_ in range(3) for x_ in v_[l_].vars())), None)
+        if delta is None:
+            continue
+        done += 1
+        pos = [sorted(v for v in delta[k].vars() if v.startswith("positions[")) for k in range(3)]
+        problems = []
+        coeff = {}
+        for k in range(3):
+            p = delta[k].poly()
+            if p is None:
+                problems.append("component %d is not a polynomial in positions and cell vectors" % k)
+                continue
+            plain = Poly({})
+            for mono, c in p.t.items():
+                names = [n_ for n_, e_ in mono]
+                boxn = [n_ for n_ in names if n_.startswith("box_vectors_pointer[")]
+                if not boxn:
+                    plain = plain + Poly({mono: c})
+                    continue
+                if len(boxn) != 1 or dict(mono)[boxn[0]] != 1:
+                    problems.append("component %d has a term that is not linear in one cell-vector entry: %s" % (k, mono))
+                    continue
+                idx = int(boxn[0][len("box_vectors_pointer["):-1])
+                m_, k2 = divmod(idx, 3)
+                rest = tuple((n_, e_) for n_, e_ in mono if n_ != boxn[0])
+                if any(n_ not in ints for n_, e_ in rest):
+                    problems.append("component %d: the multiple of box[%d] is not a rounding term (%s)" % (k, idx, rest))
+                    continue
+                if k2 != k:
+                    problems.append("component %d is corrected with box[%d], which is component %d of cell vector %d" % (k, idx, k2, m_))
+                    continue
+                coeff.setdefault(m_, {}).setdefault(k, Poly({}))
+                coeff[m_][k] = coeff[m_][k] + Poly({rest: c})
+            # what is left is the plain difference of two positions, component k
+            okp = len(plain.t) == 2 and sorted(c_ for _, c_ in plain.t.items()) == [-1, 1] and all(len(m_) == 1 and m_[0][1] == 1 and m_[0][0].startswith("positions[") for m_ in plain.t)
+            if not okp:
+                problems.append("component %d without its lattice terms is %r, not the difference of two positions" % (k, Rat(plain)))
+        for m_, per in sorted(coeff.items()):
+            if set(per) != {0, 1, 2} or not (per[0] == per[1] == per[2]):
+                problems.append("cell vector %d is subtracted %s times from the components %s: not one lattice vector" % (m_, [repr(Rat(per[k_])) for k_ in sorted(per)], sorted(per)))
+        if set(coeff) != {0, 1, 2} and not problems:
+            problems.append("only the cell vectors %s take part in the reduction" % sorted(coeff))
+        ctx.decide(not problems, "C09-R3", C.line(fn), GEO, fname, what, "", "; ".join(problems[:2]))
+        break
+    if not done:
+        ctx.undecided("C09-R3", C.line(fn), GEO, fname, what, "no path with a cell on which a reduced difference is compared was found")
+
+
 def r3(ctx, cf):
     # the argument of every rounding call in the minimum-image kernels is built from a difference (REL) and box terms only
     for rel, fname, pos, box, posout, results in KERNELS:
@@ -635,6 +708,7 @@ def r3(ctx, cf):
             continue
         ctx.decide(not pos_round and bool(seen), "C09-R3", C.line(fn), rel, fname, "%d rounding calls, none on an absolute position" % len(seen), "",
                    "a lattice reduction is computed from an absolute position (line %s): the result changes when an atom is moved by a lattice vector" % (pos_round[0][0] if pos_round else "?"))
+    _closest_contact_lattice(ctx, cf)
     # an observable is lattice-invariant only if every distance it is built from is a minimum-image distance: `periodic` reaches every callee
     from .c05 import periodic_plumbing
     periodic_plumbing(ctx, "C09-R3", floor=20)
